@@ -1,9 +1,9 @@
-(* Obligation C20/lognormal_pdf_is_derivative_of_cdf.  Statement as printed by Coq from Inferno.C20.DistProofs; proof by reference.
+(* Obligation C20/lognormal_pdf_is_derivative_of_cdf.  Statement as printed by Coq from Inferno.C20.DistLogNormal; proof by reference.
    This file contains nothing else, so the statement cannot be weakened quietly. *)
 From Coq Require Import Reals List ZArith Bool.
 From Coquelicot Require Import Coquelicot.
 From Flocq Require Import Core.Raux.
-From Inferno Require Import Base.Num Base.NumR C20.Model C20.Spec C20.DistProofs.
+From Inferno Require Import Base.Num Base.NumR Gen.Distributions C20.Model C20.Spec C20.DistLogNormal.
 Import ListNotations.
 Open Scope R_scope.
 Theorem lognormal_pdf_is_derivative_of_cdf : forall (erf : R -> R) (loc : T RN) (scale x : R),
@@ -12,5 +12,5 @@ Theorem lognormal_pdf_is_derivative_of_cdf : forall (erf : R -> R) (loc : T RN) 
   0 < x ->
   is_derive (fun x0 : R_AbsRing => lognormal_cdf RN erf x0 loc scale) x
     (lognormal_pdf RN (2 * PI) x loc scale).
-Proof. exact (@Inferno.C20.DistProofs.lognormal_pdf_is_derivative_of_cdf). Qed.
+Proof. exact (@Inferno.C20.DistLogNormal.lognormal_pdf_is_derivative_of_cdf). Qed.
 Print Assumptions lognormal_pdf_is_derivative_of_cdf.
